@@ -11,7 +11,12 @@ THEOREMS = ["LNN.C13_aggregate_zero_iff",
             "LNN.C13_pass",
             "LNN.C13_infer",
             "LNN.C13_second_pass_zero",
-            "LNN.C13_amount_eq_potential_drop"]
+            "LNN.C13_amount_eq_potential_drop",
+            "LNN.C13_layer_amount",
+            "LNN.C13_fol_nonneg",
+            "LNN.C13_fol_up_zero_iff",
+            "LNN.C13_fol_down_zero_iff",
+            "LNN.C13_fol_pass_zero_iff"]
 MODULES = ["LnnVerif.Props.C13"]
 FACETS = {"bounds", "reported"}
 
